@@ -18,7 +18,9 @@ Bind(blk, x, v) == (x :> v) @@ blk
 
 \* State threaded through evaluation: block stack of the current frame,
 \* everything printed so far, remaining fuel.
-St(bl, out, fuel) == [bl |-> bl, out |-> out, fuel |-> fuel, depth |-> 0]
+\* w: what the watched expression (node kind "watch", property C27) evaluated
+\* to the first time an evaluation of it completed; "-" while that has not happened.
+St(bl, out, fuel) == [bl |-> bl, out |-> out, fuel |-> fuel, depth |-> 0, w |-> "-"]
 MaxDepth == 25
 
 \* Result of evaluating something.
@@ -169,6 +171,10 @@ Eval(prog, e, s) ==
     [] e.k = "bool" -> Ok(BoolV(e.v), s)
     [] e.k = "unit" -> Ok(UnitV, s)
     [] e.k = "paren" -> Eval(prog, e.e, s)
+    [] e.k = "watch" -> \* transparent; remembers the first value (C27: what eval-up-to must report)
+                        LET r == Eval(prog, e.e, s) IN
+                        IF r.c = "ok" /\ r.s.w = "-" /\ r.v.k \notin {"Clo", "Fun"}
+                        THEN [r EXCEPT !.s.w = Disp(r.v)] ELSE r
     [] e.k = "var"  ->
          LET i == FindBlk(s.bl, e.n, Len(s.bl)) IN
          IF i # 0 THEN Ok(s.bl[i][e.n], s)
@@ -292,5 +298,6 @@ Run(prog, fuel) ==
    out |-> r.s.out,
    ek |-> r.ek,
    line |-> r.line,
-   value |-> IF r.c \in {"ok", "return"} /\ r.v.k \notin {"Clo", "Fun"} THEN Disp(r.v) ELSE ""]
+   value |-> IF r.c \in {"ok", "return"} /\ r.v.k \notin {"Clo", "Fun"} THEN Disp(r.v) ELSE "",
+   watch |-> r.s.w]
 =============================================================================
